@@ -22,12 +22,12 @@ Theorem C05_ctor_wf : forall t, table_ok t = true -> forall a s,
   mk_qube t a = Some s -> wf t s = true.
 Proof. exact mk_qube_wf. Qed.
 
-(* U: insert_deriv (strip nested derivatives, float, match read-only, broadcast to the parent's
-   shape, set the d_d attribute) keeps the parent well-formed, hence establishes every derivative
+(* U: insert_deriv (strip nested derivatives, float, broadcast to the parent's shape, match
+   read-only, set the d_d attribute) keeps the parent well-formed, hence establishes every derivative
    clause (float, same leading shape and numerator, no derivatives of its own, reachable as
-   d_d<key>, read-only under a read-only parent), outside the region excluded by ins_guard *)
+   d_d<key>, read-only under a read-only parent) - for EVERY well-formed derivative argument *)
 Theorem C05_insert_deriv_wf : forall t p k d p',
-  wf t p = true -> wf_core t (s_core d) = true -> ins_guard (s_core p) (s_core d) = true ->
+  wf t p = true -> wf_core t (s_core d) = true ->
   insert_deriv t p k d = Some p' -> wf t p' = true /\ s_core p' = s_core p.
 Proof. exact insert_deriv_wf. Qed.
 
@@ -41,7 +41,7 @@ Theorem C05_reachable_wf : forall t, table_ok t = true -> forall a l s0 s,
   mk_qube t a = Some s0 -> ops_guard t s0 l = true -> run_ops t s0 l = Some s -> wf t s = true.
 Proof. exact reachable_wf. Qed.
 
-(* ---------- non-vacuity and the refuted corner ---------- *)
+(* ---------- non-vacuity ---------- *)
 Definition ex_table (c : cls) : clsinfo :=
   match c with
   | CQube => mkinfo None None true true true true true None
@@ -73,10 +73,10 @@ Definition ex_deriv :=     (* an int Scalar of shape () that carries a derivativ
   mksnap (mkcore CScalar [] [] [] [] 0 0 0 1 1 1 1 (VScalar KInt) (MBool false) (VScalar KInt) false false None None)
          [("z"%string, mkdsnap (mkcore CScalar [] [] [] [] 0 0 0 1 1 1 1 (VScalar KFloat) (MBool false) (VScalar KFloat) false false None None) false true [])]
          ["z"%string].
-(* inserting it into a read-only (3,) parent: stripped, floated, frozen, broadcast, attribute set *)
+(* inserting it into a read-only (3,) parent: stripped, floated, broadcast, frozen, attribute set *)
 Example ex_insert_ok : exists p', insert_deriv ex_table ex_parent "t"%string ex_deriv = Some p' /\
   wf ex_table ex_parent = true /\ wf_core ex_table (s_core ex_deriv) = true /\
-  ins_guard (s_core ex_parent) (s_core ex_deriv) = true /\ wf ex_table p' = true /\
+  wf ex_table p' = true /\
   c_ro (s_core ex_parent) = true /\ List.length (s_derivs p') = 1.
 Proof. eexists. split; [vm_compute; reflexivity|]. vm_compute. repeat split; reflexivity. Qed.
 Example ex_history_ok :
@@ -84,17 +84,17 @@ Example ex_history_ok :
   /\ exists s, run_ops ex_table ex_parent [OInsertDeriv "t"%string ex_deriv; OClone true; OCopy true; OBroadcast [2; 3]; OWithoutDeriv "t"%string] = Some s.
 Proof. split; [vm_compute; reflexivity|]. eexists. vm_compute. reflexivity. Qed.
 
-(* R: the faithful model of the code AS IT IS refutes insert_deriv_wf without ins_guard: a read-only
-   shapeless Scalar takes a derivative of shape (1,), which is collapsed to its single element AFTER
-   the read-only state was matched; the stored derivative is not read-only. *)
+(* the corner that was refuted before the repair of insert_deriv (read-only match now AFTER the
+   broadcast): a read-only shapeless Scalar takes a derivative of shape (1,), which is collapsed to
+   its single element; the stored derivative is read-only and the result is well-formed *)
 Definition ro_shapeless :=
   bare (mkcore CScalar [] [] [] [] 0 0 0 1 1 1 1 (VScalar KFloat) (MBool false) (VScalar KFloat) false true None None).
-Definition deriv3 :=
+Definition deriv1 :=
   bare (mkcore CScalar [1] [] [] [] 0 0 0 1 1 1 1 (VArr KFloat [1]) (MBool false) (VScalar KFloat) false false (Some true) None).
-Theorem C05_insert_collapse_refuted : exists p',
-  wf ex_table ro_shapeless = true /\ wf ex_table deriv3 = true /\
-  insert_deriv ex_table ro_shapeless "t"%string deriv3 = Some p' /\ wf ex_table p' = false /\
-  why ex_table p' = [25].
+Example ex_insert_collapse_ok : exists p',
+  wf ex_table ro_shapeless = true /\ wf ex_table deriv1 = true /\
+  insert_deriv ex_table ro_shapeless "t"%string deriv1 = Some p' /\ wf ex_table p' = true /\
+  map (fun kd => c_ro (d_core (snd kd))) (s_derivs p') = [true].
 Proof. eexists. repeat split; vm_compute; reflexivity. Qed.
 
 Print Assumptions C05_why_is_wf.
@@ -103,4 +103,3 @@ Print Assumptions C05_ctor_wf.
 Print Assumptions C05_insert_deriv_wf.
 Print Assumptions C05_ops_preserve_wf.
 Print Assumptions C05_reachable_wf.
-Print Assumptions C05_insert_collapse_refuted.
